@@ -466,7 +466,9 @@ class ArithmeticPulseTemplate(PulseTemplate):
             for ch, value in scalar.items():
                 scalar[ch] = value * self.duration.sympified_expression
 
-        return self._apply_operation_to_channel_dict(integral, scalar)
+        # wrap the results: enclosing templates (ForLoopPT, ArithmeticPT, MappingPT) expect ExpressionScalar values
+        return {channel: ExpressionScalar(value)
+                for channel, value in self._apply_operation_to_channel_dict(integral, scalar).items()}
 
     def _apply_operation_to_channel_dict(self,
                                          pt_values: Dict[ChannelID, ExpressionScalar],
